@@ -93,12 +93,16 @@ struct BufObj {
   long extra = 0;  // references the harness took through vptr->addref
 };
 
+// a slice is an array handle (base class in the C++ view, first member in C) plus offset and visible length
+static array *arr_of(slice *s) { return s; }
+static array *arr_of(CObj<slice> &s) { return s.get(); }
 static void run_buffer(Ctx &c) {
   Obs obs;
   W = &obs;
   struct Guard { ~Guard() { W = 0; } } guard;
   std::vector<BufObj> objs;
   CObj<array> h[3], slot[2];
+  CObj<slice> sl[2];  // slice handles: an array member (one buffer reference) plus offset/visible length
   const type_traits *at = mpt_array_traits();
   bool nontrivial = false;
   c.label("buffer");
@@ -106,7 +110,7 @@ static void run_buffer(Ctx &c) {
     for (auto &o : objs) if (o.b == b && !o.toks.empty() && obs.trk.live.count(o.toks[0])) return;
     BufObj o;
     o.b = b;
-    for (size_t i = 0; i < b->used / 16; i++) { uint64_t t; memcpy(&t, b->data() + 16 * i, 8); o.toks.push_back(t); }
+    if (b->traits) for (size_t i = 0; i < b->used / 16; i++) { uint64_t t; memcpy(&t, b->data() + 16 * i, 8); o.toks.push_back(t); }  // raw buffers (slice scenario) hold no elements
     objs.push_back(o);
   };
   auto index = [&](CBuf *b) -> int {
@@ -120,6 +124,7 @@ static void run_buffer(Ctx &c) {
     for (size_t i = 0; i < objs.size(); i++) for (size_t j = i + 1; j < objs.size(); j++) if (objs[j].b == objs[i].b) newest[i] = false;
     for (auto &x : h) if (cbuf(x)) { int i = index(cbuf(x)); VP_CHECK(c, i >= 0, "harness", "unknown buffer in handle"); cnt[i]++; }
     for (auto &x : slot) if (cbuf(x)) { int i = index(cbuf(x)); VP_CHECK(c, i >= 0, "harness", "unknown buffer in slot"); cnt[i]++; }
+    for (auto &x : sl) if (cbuf(arr_of(x))) { int i = index(cbuf(arr_of(x))); VP_CHECK(c, i >= 0, "harness", "unknown buffer in slice"); cnt[i]++; }
     obs.trk.tally_begin();
     for (size_t i = 0; i < objs.size(); i++) {
       BufObj &o = objs[i];
@@ -146,9 +151,65 @@ static void run_buffer(Ctx &c) {
     size_t lost = obs.trk.unseen(first);
     VP_CHECK(c, !lost, "not-released", "after %s: %zu element(s) of no referenced buffer are still alive, e.g. %s", op, lost, first.c_str());
   };
-  auto alive_objs = [&]() { std::vector<int> v; for (size_t i = 0; i < objs.size(); i++) { long n = objs[i].extra; for (auto &x : h) if (cbuf(x) == objs[i].b) n++; for (auto &x : slot) if (cbuf(x) == objs[i].b) n++; bool newest = true; for (size_t j = i + 1; j < objs.size(); j++) if (objs[j].b == objs[i].b) newest = false; if (n > 0 && newest) v.push_back((int)i); } return v; };
+  auto alive_objs = [&]() { std::vector<int> v; for (size_t i = 0; i < objs.size(); i++) { long n = objs[i].extra; for (auto &x : h) if (cbuf(x) == objs[i].b) n++; for (auto &x : slot) if (cbuf(x) == objs[i].b) n++; for (auto &x : sl) if (cbuf(arr_of(x)) == objs[i].b) n++; bool newest = true; for (size_t j = i + 1; j < objs.size(); j++) if (objs[j].b == objs[i].b) newest = false; if (n > 0 && newest) v.push_back((int)i); } return v; };
   while (c.more()) {
-    switch (c.weighted({6, 12, 6, 8, 8, 6, 6, 6})) {
+    switch (c.weighted({6, 12, 6, 8, 8, 6, 6, 6, 6, 9, 3})) {
+      case 8: {  // attach a slice to the buffer of a handle (a handle without buffer gets a raw one first)
+        int k = (int)c.pick(2), j = (int)c.pick(3);
+        slice *v = sl[k].get();
+        if (cbuf(arr_of(v))) { mpt_array_clone(arr_of(v), 0); v->_off = v->_len = 0; }
+        if (!cbuf(h[j])) {
+          if (objs.size() >= 8) { check("slice release"); break; }
+          size_t n = c.range(0, 70);
+          std::vector<uint8_t> bytes(n + 1, 0x5a);
+          VP_CHECK(c, mpt_array_append(h[j], n, bytes.data()) && cbuf(h[j]), "harness", "mpt_array_append failed");
+          adopt(cbuf(h[j]));
+          c.logf("h%d = new raw buffer #%zu with %zu bytes", j, objs.size() - 1, n);
+        }
+        CBuf *b = cbuf(h[j]);
+        int r = mpt_array_clone(arr_of(v), h[j]);
+        VP_CHECK(c, r >= 0 && cbuf(arr_of(v)) == b, "clone-result", "mpt_array_clone into the array member of a slice returned %d", r);
+        // a fresh slice sees nothing yet; otherwise it covers a drawn part of the data (raw buffers only)
+        size_t vis = (!b->traits && b->used && c.flip()) ? c.range(1, b->used) : 0;
+        v->_off = vis ? c.range(0, b->used - vis) : 0;
+        v->_len = vis;
+        c.logf("slice%d attached to the buffer of h%d (offset %zu, visible length %zu of %zu)", k, j, (size_t)v->_off, vis, b->used);
+        c.label(vis ? "buffer:slice-attach-view" : "buffer:slice-attach-empty");
+        check("slice attach");
+        break;
+      }
+      case 9: {  // write through the slice: in place when it owns the buffer alone, otherwise it moves to a new buffer
+        int k = (int)c.pick(2);
+        slice *v = sl[k].get();
+        CBuf *before = cbuf(arr_of(v));
+        size_t nblk = c.range(0, 3), size = c.range(1, 24);
+        uint8_t data[96];
+        memset(data, 0x77, sizeof data);
+        uint32_t fl = before ? flags_of(before) : 0;
+        bool had_view = v->_len != 0, typed = before && before->traits;  // 'before' may be gone after the call
+        ssize_t r = mpt_slice_write(v, nblk, c.flip() ? data : 0, size);
+        CBuf *now = cbuf(arr_of(v));
+        c.logf("mpt_slice_write(slice%d, %zu block(s) of %zu bytes; buffer %s, visible length %s) returns %zd -> %s", k, nblk, size,
+               !before ? "none" : (fl & BufferShared) ? "shared" : "unique", had_view ? "> 0" : "0", r, now == before ? "same buffer" : "new buffer");
+        if (typed) VP_CHECK(c, r < 0 && now == before, "slice-write-result", "mpt_slice_write on a typed buffer returned %zd", r);
+        if (now && now != before) {
+          adopt(now);
+          if (before) { nontrivial = true; c.label((fl & BufferShared) ? (had_view ? "buffer:slice-leaves-shared-with-view" : "buffer:slice-leaves-shared-empty") : "buffer:slice-leaves-unique"); }
+        } else if (r > 0) c.label("buffer:slice-write-in-place");
+        check("slice write");
+        break;
+      }
+      case 10: {  // release the slice
+        int k = (int)c.pick(2);
+        slice *v = sl[k].get();
+        if (!cbuf(arr_of(v))) break;
+        c.logf("slice%d released", k);
+        mpt_array_clone(arr_of(v), 0);
+        v->_off = v->_len = 0;
+        nontrivial = true;
+        check("slice release");
+        break;
+      }
       case 0: {  // create
         int i = (int)c.pick(3);
         if (cbuf(h[i]) || objs.size() >= 8) break;
@@ -245,7 +306,7 @@ static void run_buffer(Ctx &c) {
         check("traits fini");
         break;
       }
-      default: {  // private copy
+      case 7: default: {  // private copy
         int i = (int)c.pick(3);
         if (!cbuf(h[i])) break;
         CBuf *before = cbuf(h[i]);
@@ -269,6 +330,7 @@ static void run_buffer(Ctx &c) {
   }
   for (auto &x : h) if (cbuf(x)) mpt_array_clone(x, 0);
   for (auto &x : slot) at->fini(x);
+  for (auto &x : sl) if (cbuf(arr_of(x))) { mpt_array_clone(arr_of(x), 0); check("slice release"); }
   for (auto &o : objs) while (o.extra > 0) { o.b->vptr->unref(o.b); o.extra--; }
   check("final release");
   VP_CHECK(c, obs.trk.live.empty(), "not-released", "%zu element(s) alive after every reference was dropped", obs.trk.live.size());
